@@ -1,6 +1,7 @@
 package h
 
 import (
+	"bytes"
 	"fmt"
 	"time"
 
@@ -38,6 +39,7 @@ type c08cfg struct {
 	idleKill time.Duration
 	gapMax   int
 	massKill bool
+	lazyQ    int
 	w        *W1
 	attempts map[int][]attempt // call -> writes
 	opener   map[int]int       // conn -> call index that opened it (-1 unknown)
@@ -68,6 +70,12 @@ func c08Setup(rc *RunCtx) simrt.Config {
 	c.pCloseInFlight = pick(0, 0, 20)
 	c.idleKill = []time.Duration{0, 0, 500 * time.Millisecond, 2 * time.Second}[r.Choose(4)]
 	c.gapMax = pick(0, 5, 3000)
+	if c.kind == TkPipelineStream {
+		// queue limit of a connection that is still dialing (never above the
+		// established connection's own limit)
+		c.lazyQ = pick(0, 0, 1, 2)
+	}
+	rc.Cfg["lazy_queue"] = c.lazyQ
 	rc.Net.ChunkMode = r.Choose(3)
 	rc.Cfg["strategy"] = sname
 	rc.Cfg["kind"] = c.kind.String()
@@ -134,16 +142,24 @@ func c08Main(rc *RunCtx) {
 			}
 		}
 		cc.WriteHook = func(cn *simnet.Conn, b []byte) {
-			if len(b) < 14 {
+			// Every write of these transports is one whole length-prefixed query.
+			// An attempt that transmits anything else is not an attempt to send
+			// the query (and the server cannot answer it).
+			var x *Call
+			if len(b) >= 14 && int(b[0])<<8|int(b[1]) == len(b)-2 {
+				if _, name, ok := parseQuery(b[2:]); ok {
+					x = w.byName[name]
+				}
+			}
+			if x == nil || !bytes.Equal(b[4:], x.Query[2:]) {
+				hd := b
+				if len(hd) > 24 {
+					hd = hd[:24]
+				}
+				rc.Fail("attempt_wrote_wrong_bytes", "connection %d: the client wrote %d bytes (% x ...) that are not the intact length-prefixed query of any call", cn.ID, len(b), hd)
 				return
 			}
-			_, name, ok := parseQuery(b[2:])
-			if !ok {
-				return
-			}
-			if x := w.byName[name]; x != nil {
-				c.attempts[x.Idx] = append(c.attempts[x.Idx], attempt{Conn: cn.ID, Step: simrt.S.Steps(), At: simrt.S.Elapsed()})
-			}
+			c.attempts[x.Idx] = append(c.attempts[x.Idx], attempt{Conn: cn.ID, Step: simrt.S.Steps(), At: simrt.S.Elapsed()})
 		}
 	}
 	rc.Net.OnEvent = func(e simnet.Event) {
@@ -151,7 +167,7 @@ func c08Main(rc *RunCtx) {
 			c.closeEv = append(c.closeEv, closeEvent{e.Conn, e.Step})
 		}
 	}
-	u := w.NewTransport(c.kind, TransportOpts{MaxCQ: 0})
+	u := w.NewTransport(c.kind, TransportOpts{MaxCQ: 0, MaxLazyQ: c.lazyQ})
 	done := make(chan struct{}, 64)
 	runCall := func(ci, s int) {
 		call := w.NewCall(ci, s, uint16(simrt.Choose(65536)), 1)
@@ -244,11 +260,27 @@ func c08CheckCall(rc *RunCtx, c *c08cfg, x *Call) {
 	// licence (i): a connection was opened for this call. Both transports stop
 	// retrying after an attempt on a connection of their own, so that attempt was
 	// the last one (it may have failed before anything was written).
-	for _, op := range c.opener {
-		if op == x.Idx {
-			simrt.Probe("c08.failed_on_own_fresh_conn")
-			return
+	own, ownUnused := false, -1
+	for id, op := range c.opener {
+		if op != x.Idx {
+			continue
 		}
+		own = true
+		cc := rc.Net.Conns()[id]
+		if !conns[id] && !cc.IsClosed() && !cc.Peer().IsClosed() {
+			ownUnused = id
+		}
+	}
+	if own && ownUnused >= 0 && len(order) <= 1 && !conns[ownUnused] {
+		// The connection opened for this call is alive and the query was never
+		// written on it: no attempt on it has failed.
+		rc.Fail("failed_without_attempt_on_own_connection", "call %d (%s) failed with %q; connection %d was opened for it, is still healthy, and the query was never written on it (written on %v)",
+			x.Idx, x.QName, x.Err, ownUnused, order)
+		return
+	}
+	if own {
+		simrt.Probe("c08.failed_on_own_fresh_conn")
+		return
 	}
 	// Attempts that ended before anything was written (the connection was closed
 	// between reservation and send) are invisible on the wire. They need another
